@@ -38,4 +38,13 @@ case "$ID:$MODE" in
         ;;
 esac
 shift 2
-exec "$BIN" "$ID" "$MODE" "$@"
+"$BIN" "$ID" "$MODE" "$@"
+rc=$?
+# scratch roots of harness processes that no longer exist (a run that was killed or aborted) are removed
+for d in /dev/shm/verif-log4rs-* "${TMPDIR:-/tmp}"/verif-log4rs-*; do
+    [ -d "$d" ] || continue
+    pid="${d##*-}"
+    case "$pid" in *[!0-9]*) continue;; esac
+    [ -e "/proc/$pid" ] || rm -rf "$d"
+done
+exit $rc
